@@ -29,8 +29,14 @@ theorem limits_sane :
 
 /-- what a statement can do to the nesting of assemble() -/
 inductive Ev where
-  | ifOpen      -- .if / .ifdef / .ifndef
-  | ifClose     -- .endif of the branch being assembled (assemble() returns 5)
+  | ifTaken     -- .if / .ifdef / .ifndef whose condition holds: parse_ifdef_ignore(…, 0) assembles the branch
+                --   (FIRST recursion site: assemble_branch() in the "not ignored" arm)
+  | ifElse      -- condition false, the text up to `.else` is skipped by ifdef_ignore() (a loop, no recursion), then the
+                --   `.else` part is assembled (SECOND recursion site: assemble_branch() behind `n == 2`)
+  | ifSkipped   -- condition false and no `.else`: ifdef_ignore() reads up to the matching `.endif`; no frame, but the
+                --   conditional is counted and tested like the others while it is open
+  | ifClose     -- `.endif` of the branch being assembled (assemble() returns 5), or `.else` of a taken branch
+                --   (assemble() returns 2) followed by the skipped rest up to its `.endif`
   | incOpen     -- .include of a file that can be opened
   | incClose    -- end of an included file
   | repOpen     -- .repeat
@@ -49,9 +55,16 @@ def St.init : St := { ifs := 0, incs := 0, rep := false, frames := 1 }
 
 /-- `none` = the statement is reported as an error (assembly stops) -/
 def step (s : St) : Ev → Option St
-  | .ifOpen =>
-    -- ifdef_count++; if (ifdef_count > MAX_NESTED_IFS) error; ... assemble()
+  | .ifTaken =>
+    -- parse_if / parse_ifdef: ifdef_count++; if (ifdef_count > MAX_NESTED_IFS) error;  -- BEFORE the condition is looked at
+    -- parse_ifdef_ignore(…, 0): assemble_branch() -> assemble()
     if s.ifs + 1 > maxNestedIfs then none else some { s with ifs := s.ifs + 1, frames := s.frames + 1 }
+  | .ifElse =>
+    -- the same test, then parse_ifdef_ignore(…, 1): ifdef_ignore() = 2, assemble_branch() -> assemble()
+    if s.ifs + 1 > maxNestedIfs then none else some { s with ifs := s.ifs + 1, frames := s.frames + 1 }
+  | .ifSkipped =>
+    -- the same test, then ifdef_ignore() = 0 and ifdef_count-- : the state is unchanged
+    if s.ifs + 1 > maxNestedIfs then none else some s
   | .ifClose =>
     -- "unmatched .endif" when ifdef_count < 1
     if s.ifs < 1 then none else some { s with ifs := s.ifs - 1, frames := s.frames - 1 }
@@ -86,6 +99,12 @@ theorem step_inv (s s' : St) (e : Ev) (h : Inv s) (hs : step s e = some s') : In
   · split at hs
     · cases hs
     · cases hs; refine ⟨by simp; omega, h2, by simp; omega⟩
+  · split at hs
+    · cases hs
+    · cases hs; refine ⟨by simp; omega, h2, by simp; omega⟩
+  · split at hs
+    · cases hs
+    · cases hs; exact ⟨h1, h2, h3⟩
   · split at hs
     · cases hs
     · cases hs; refine ⟨by simp; omega, h2, by simp; omega⟩
@@ -132,9 +151,31 @@ theorem frames_bounded (es : List Ev) :
   rw [h3]
   split <;> omega
 
-/-- a conditional that would be the (MAX_NESTED_IFS + 1)-th open one is an error, not a frame -/
-theorem too_many_ifs_is_error (s : St) (h : s.ifs = maxNestedIfs) : step s .ifOpen = none := by
+/-- a conditional that would be the (MAX_NESTED_IFS + 1)-th open one is an error, not a frame -- through the taken
+    branch, through the `.else` branch of a false one, and for a false one without `.else` alike -/
+theorem too_many_ifs_is_error (s : St) (h : s.ifs = maxNestedIfs) :
+    step s .ifTaken = none ∧ step s .ifElse = none ∧ step s .ifSkipped = none := by
   simp [step, h]
+
+/-- both recursion sites cost exactly one frame and one unit of `ifdef_count` -/
+theorem if_sites_cost_one_frame (s s' : St) (e : Ev) (he : e = .ifTaken ∨ e = .ifElse) (hs : step s e = some s') :
+    s'.frames = s.frames + 1 ∧ s'.ifs = s.ifs + 1 ∧ s.ifs < maxNestedIfs := by
+  rcases he with he | he <;> subst he <;> simp only [step] at hs <;> split at hs
+  · cases hs
+  · cases hs; exact ⟨rfl, rfl, by omega⟩
+  · cases hs
+  · cases hs; exact ⟨rfl, rfl, by omega⟩
+
+/-- the deepest recursion of assemble() while the events are processed (what the trace hook's `enter <depth>` shows) -/
+def maxFrames (s : St) (es : List Ev) : Nat := (runEvents s es).foldl (fun m t => max m t.frames) 0
+
+/-- index of the event that is refused, if any -/
+def firstError : St → List Ev → Nat → Option (Nat × Ev)
+  | _, [], _ => none
+  | s, e :: es, k =>
+    match step s e with
+    | none => some (k, e)
+    | some s' => firstError s' es (k + 1)
 
 theorem too_many_includes_is_error (s : St) (h : s.incs = includeDepthMax) : step s .incOpen = none := by
   simp [step, h]
